@@ -1,5 +1,6 @@
 import Driver.Proto
 import XgcmModel.Model.Linear
+import XgcmModel.Model.TransformGuards
 namespace Xgcm.Driver
 open Xgcm Xgcm.Proto
 
@@ -12,5 +13,29 @@ def c08 : P String := do
   let bypass ← bool
   let out := interp1dLinear phi theta levels mask bypass
   pure ("ok " ++ String.intercalate " " (out.map (fun o => match o with | some v => fmtRat v | none => "nan")))
+
+/-- optional token: `N` = not given -/
+def optTok : P (Option String) := do
+  let t ← tok
+  pure (if t == "N" then none else some t)
+
+/-- `c08names <kind: bare|one D|many> <target_dim|N> <tdata: U (not given) | A (anonymous) | name> <axisDim>
+    <input name|N> <suffix|N>` → `<new dim|none> <result name|none>` -/
+def c08names : P String := do
+  let k ← tok
+  let kind ← (match k with
+    | "bare" => pure TargetKind.bare
+    | "many" => pure TargetKind.manyDim
+    | "one" => do let d ← tok; pure (TargetKind.oneDim d)
+    | _ => throw s!"bad kind {k}")
+  let td ← optTok
+  let t ← tok
+  let tdata : Option (Option String) := if t == "U" then none else if t == "A" then some none else some (some t)
+  let axisDim ← tok
+  let inp ← optTok
+  let sfx0 ← optTok
+  let sfx := sfx0.map (fun x => if x == "E" then "" else x)      -- `E` = the empty suffix
+  let show' := fun (o : Option String) => match o with | some x => x | none => "none"
+  pure (show' (transformDimName kind td tdata axisDim) ++ " " ++ show' (transformResultName inp sfx))
 
 end Xgcm.Driver
